@@ -163,6 +163,8 @@ impl Search {
             }
         }
 
+        // From the bestmove on the GUI may send the next go: mark this search as over first
+        self.stop();
         #[cfg(rce_verif)]
         crate::verif_hooks::sched("search:pre_best");
         // No iteration was completed (tiny node or time budget, immediate stop): any legal
